@@ -364,55 +364,71 @@ fn fails_with(check: &dyn Erased, sc: &Value, rule: &str) -> bool {
     }
 }
 
-/// Candidate simplifications of a JSON value, lazily by path.
-fn candidates(v: &Value, out: &mut Vec<Value>, root: &Value, path: &mut Vec<PathSeg>) {
+/// One candidate simplification: a small description that is applied to the current scenario only
+/// when it is its turn (a scenario may hold tens of thousands of operations).
+#[derive(Clone)]
+enum Edit {
+    /// replace the value at the path
+    Set(Vec<PathSeg>, Value),
+    /// remove `len` elements starting at `from` from the array at the path
+    Cut(Vec<PathSeg>, usize, usize),
+}
+
+/// Candidate simplifications of a JSON value by path: big cuts first, then smaller ones, then scalars.
+fn candidates(v: &Value, out: &mut Vec<Edit>, path: &mut Vec<PathSeg>) {
     match v {
         Value::Array(a) => {
-            if a.len() > 3 {
-                // drop halves
-                let mid = a.len() / 2;
-                out.push(replace_at(root, path, Value::Array(a[..mid].to_vec())));
-                out.push(replace_at(root, path, Value::Array(a[mid..].to_vec())));
+            // remove chunks of n/2, n/4, ... elements, then single elements (from the back)
+            let n = a.len();
+            let mut size = n / 2;
+            while size >= 2 {
+                let mut from = 0;
+                while from < n {
+                    out.push(Edit::Cut(path.clone(), from, size.min(n - from)));
+                    from += size;
+                }
+                size /= 2;
             }
-            for i in (0..a.len()).rev() {
-                let mut b = a.clone();
-                b.remove(i);
-                out.push(replace_at(root, path, Value::Array(b)));
+            for i in (0..n).rev() {
+                out.push(Edit::Cut(path.clone(), i, 1));
             }
-            for (i, x) in a.iter().enumerate() {
-                path.push(PathSeg::Idx(i));
-                candidates(x, out, root, path);
-                path.pop();
+            // descending into a huge array element by element is pointless within the execution budget
+            if n <= 2000 {
+                for (i, x) in a.iter().enumerate() {
+                    path.push(PathSeg::Idx(i));
+                    candidates(x, out, path);
+                    path.pop();
+                }
             }
         }
         Value::Object(m) => {
             for (k, x) in m {
                 path.push(PathSeg::Key(k.clone()));
-                candidates(x, out, root, path);
+                candidates(x, out, path);
                 path.pop();
             }
         }
         Value::Number(n) => {
             if let Some(u) = n.as_u64() {
                 if u != 0 {
-                    out.push(replace_at(root, path, json!(0)));
+                    out.push(Edit::Set(path.clone(), json!(0)));
                     if u > 1 {
-                        out.push(replace_at(root, path, json!(1)));
-                        out.push(replace_at(root, path, json!(u / 2)));
+                        out.push(Edit::Set(path.clone(), json!(1)));
+                        out.push(Edit::Set(path.clone(), json!(u / 2)));
                     }
                     if u > 1_000_000 {
                         // round to whole milliseconds / seconds
-                        out.push(replace_at(root, path, json!(u / 1_000_000 * 1_000_000)));
-                        out.push(replace_at(root, path, json!(u / 1_000_000_000 * 1_000_000_000)));
+                        out.push(Edit::Set(path.clone(), json!(u / 1_000_000 * 1_000_000)));
+                        out.push(Edit::Set(path.clone(), json!(u / 1_000_000_000 * 1_000_000_000)));
                     }
                 }
             } else if let Some(i) = n.as_i64()
                 && i != 0
             {
-                out.push(replace_at(root, path, json!(0)));
+                out.push(Edit::Set(path.clone(), json!(0)));
             }
         }
-        Value::Bool(true) => out.push(replace_at(root, path, json!(false))),
+        Value::Bool(true) => out.push(Edit::Set(path.clone(), json!(false))),
         Value::String(_) | Value::Bool(false) | Value::Null => {}
     }
 }
@@ -421,6 +437,33 @@ fn candidates(v: &Value, out: &mut Vec<Value>, root: &Value, path: &mut Vec<Path
 enum PathSeg {
     Key(String),
     Idx(usize),
+}
+
+fn get_at<'a>(root: &'a Value, path: &[PathSeg]) -> Option<&'a Value> {
+    let mut v = root;
+    for seg in path {
+        v = match (seg, v) {
+            (PathSeg::Key(k), Value::Object(m)) => m.get(k)?,
+            (PathSeg::Idx(i), Value::Array(a)) => a.get(*i)?,
+            _ => return None,
+        };
+    }
+    Some(v)
+}
+
+fn apply_edit(root: &Value, e: &Edit) -> Option<Value> {
+    match e {
+        Edit::Set(path, new) => Some(replace_at(root, path, new.clone())),
+        Edit::Cut(path, from, len) => {
+            let Value::Array(a) = get_at(root, path)? else { return None };
+            if *from >= a.len() {
+                return None;
+            }
+            let mut b = a.clone();
+            b.drain(*from..(*from + *len).min(a.len()));
+            Some(replace_at(root, path, Value::Array(b)))
+        }
+    }
 }
 
 fn replace_at(root: &Value, path: &[PathSeg], new: Value) -> Value {
@@ -455,13 +498,13 @@ pub fn shrink(check: &dyn Erased, sc: Value, rule: &str, max_exec: usize) -> (Va
     let mut execs = 0usize;
     loop {
         let mut cands = Vec::new();
-        candidates(&cur, &mut cands, &cur, &mut Vec::new());
-        // cheapest first: smaller serialisation first
+        candidates(&cur, &mut cands, &mut Vec::new());
         let mut progressed = false;
-        for c in cands {
+        for e in cands {
             if execs >= max_exec {
                 return (cur, execs);
             }
+            let Some(c) = apply_edit(&cur, &e) else { continue };
             if c == cur {
                 continue;
             }
@@ -623,6 +666,27 @@ pub fn run_check(check: &dyn Erased, tier: Tier) -> i32 {
             .unwrap_or_else(|| viol.message.clone());
         // replays must reproduce (twice, in-process); otherwise it is a harness error
         if !fails_with(check, &min_sc, rule) || !fails_with(check, &min_sc, rule) {
+            // The code under simulation may keep state across runs of one process (a process-wide cache, a
+            // lock, an age): then only a fresh process can repeat the run. Try the scenario as it was found.
+            let path = write_replay(check, seed, *index, rule, sc, &viol.message);
+            let fresh = std::env::current_exe().ok().and_then(|exe| {
+                std::process::Command::new(exe).args(["replay", &path.display().to_string()]).env("VERIF_WORKERS", "1").output().ok()
+            });
+            let reproduced = fresh.is_some_and(|o| String::from_utf8_lossy(&o.stdout).contains(&format!("VIOLATION property={}", check.id())));
+            if reproduced {
+                println!(
+                    "violation: property={} rule={} seed={} index={} (not minimised: repeats only in a fresh process, the code under simulation keeps state between runs): {}",
+                    check.id(),
+                    rule,
+                    seed,
+                    index,
+                    viol.message
+                );
+                println!("VIOLATION property={} replay={}", check.id(), path.display());
+                reported += 1;
+                continue;
+            }
+            let _ = std::fs::remove_file(&path);
             println!(
                 "HARNESS-ERROR property={} rule={} index={} does not replay deterministically",
                 check.id(),
